@@ -106,6 +106,18 @@ var sliceHelpers = []sliceHelper{
 	{"Merge", 0, func(a, b []int) [][]int { return [][]int{gogu.Merge(a, b)} }},
 	{"MergeRev", 0, func(a, b []int) [][]int { return [][]int{gogu.Merge(b, a, a)} }},
 	{"Intersection", 0, func(a, b []int) [][]int { return [][]int{gogu.Intersection(a, b)} }},
+	// the caller's own list of lists handed over with a spread call: its order is the caller's too
+	{"IntersectionSp", 0, func(a, b []int) [][]int { return [][]int{gogu.Intersection(frameOuter...)} }},
+	{"IntersectionBySp", 0, func(a, b []int) [][]int {
+		return [][]int{gogu.IntersectionBy(func(x int) int { return x % 3 }, frameOuter...)}
+	}},
+	{"MergeSp", 0, func(a, b []int) [][]int { return [][]int{gogu.Merge([]int{7}, frameOuter...)} }},
+	{"ZipSq", 0, func(a, b []int) [][]int {
+		if len(a) != 2 || len(b) != 2 {
+			return nil
+		}
+		return append(gogu.Zip(a, b), gogu.Unzip(b, a)...)
+	}},
 	{"IntersectionBy", 0, func(a, b []int) [][]int {
 		return [][]int{gogu.IntersectionBy(func(x int) int { return x % 2 }, a, b)}
 	}},
@@ -177,8 +189,27 @@ var frameFlip func(args ...int) []int
 // (Pick(m, ks...), Omit(m, ks...)): a view of length 3 onto a backing array with spare capacity.
 var frameKeys []int
 
+// frameOuter is the caller's list of lists handed to the variadic slice helpers with a spread call
+// (Intersection(ls...), Merge(s, ls...)): {b, a, b[:1], a}, a view of length 4 onto a backing array of 6.
+// Its fingerprint - which buffer each entry is a view of, and how long - is the third "buffer" of the scenario.
+var frameOuter [][]int
+
+func outerPrint(o [][]int, bufs [][]int) []int {
+	o = o[:cap(o)]
+	fp := make([]int, len(o))
+	for i, e := range o {
+		if e == nil {
+			fp[i] = -9
+		} else {
+			fp[i] = aliasOf(e, bufs)*100 + len(e)
+		}
+	}
+	return fp
+}
+
 type frameSys struct {
 	keys   []int // backing array of frameKeys
+	outer  [][]int
 	kind   string
 	bufs   [][]int // full backing arrays (len == cap)
 	lens   []int
@@ -230,12 +261,20 @@ func (s *frameSys) Do(o tt.Op) tt.Res {
 			s.keys = cp(o.L[1])
 			return tt.Res{Ok: true}
 		}
-		for _, l := range o.L {
+		for _, l := range o.L[:2] {
 			b := make([]int, len(l))
 			copy(b, l)
 			s.bufs = append(s.bufs, b)
 		}
 		s.lens = cp(o.A)
+		{
+			a, b := s.bufs[0][:s.lens[0]], s.bufs[1][:s.lens[1]]
+			s.outer = make([][]int, 4, 6)
+			s.outer[0], s.outer[1], s.outer[2], s.outer[3] = b, a, b[:1], a
+			if fp := outerPrint(s.outer, s.bufs); !reflect.DeepEqual(fp, o.L[2]) {
+				panic(fmt.Sprintf("frame driver: outer fingerprint %v, scenario says %v", fp, o.L[2]))
+			}
+		}
 		return tt.Res{Ok: true}
 	case "call":
 		var aliases []int
@@ -278,8 +317,9 @@ func (s *frameSys) Do(o tt.Op) tt.Res {
 		}
 		a := s.bufs[0][:s.lens[0]] // cap = the whole backing array: spare capacity is reachable
 		b := s.bufs[1][:s.lens[1]]
+		frameOuter = s.outer[:4]
 		res := h.call(a, b)
-		after := [][]int{cp(s.bufs[0]), cp(s.bufs[1])}
+		after := [][]int{cp(s.bufs[0]), cp(s.bufs[1]), outerPrint(s.outer, s.bufs)}
 		rr := s.reread()
 		for _, r := range res {
 			aliases = append(aliases, aliasOf(r, s.bufs))
@@ -315,8 +355,12 @@ func frameExplorer(depth int) *tt.Explorer {
 				for _, a := range contentsA {
 					for _, b := range contentsB {
 						for _, spare := range []int{0, 4} {
-							o := tt.Op{N: "bufs", F: "slice", A: []int{len(a), len(b)},
-								L: [][]int{withSpare(a, spare), withSpare(b, spare)}}
+							fa := 100 + len(a)
+							if len(a)+spare == 0 {
+								fa = 0 // an empty slice without capacity is a view of nothing
+							}
+							o := tt.Op{N: "bufs", F: "slice", A: []int{len(a), len(b), 4},
+								L: [][]int{withSpare(a, spare), withSpare(b, spare), {200 + len(b), fa, 201, fa, -9, -9}}}
 							r = append(r, o)
 						}
 					}
